@@ -68,11 +68,26 @@ def small_positions(res, n, seed_off=0, far_from_fifty=True):
         out.append(' '.join(f))
     return out
 
+def terminal_positions(res, n):
+    """mate and stalemate positions (no legal move) among generated few-piece endgames"""
+    ends = V.gen_positions('endgames', res.seed + 900, n)
+    chk = V.run_impl('check', ends)
+    out = []
+    for p, o in zip(ends, chk):
+        if o.endswith('E1'):
+            f = p.split(' '); f[4] = str(min(int(f[4]), 20)); out.append(' '.join(f))
+    return out
+
 def model_sessions(res, positions_list, tier=None):
     """deterministic sessions: the normalised implementation output must equal the extracted search/driver model"""
     import gen_session
     rng = random.Random(res.seed + 31)
-    cases = V.corpus('session') + gen_session.gen(rng, tier or res.tier, positions_list)
+    term = terminal_positions(res, 2000)
+    cases = V.corpus('session') + gen_session.gen(rng, tier or res.tier, list(positions_list) + term[:40])
+    # a search that completes no iteration (mated / stalemated root, searchmoves without candidate) after a normal one
+    for tp in term[:12]:
+        cases.append('\t'.join(['position startpos', 'go depth 2', 'position fen ' + tp, 'go depth 2']))
+        cases.append('\t'.join(['position fen ' + positions_list[0], 'go depth 3', 'position fen ' + tp, 'go depth 1', 'position startpos', 'go depth 1']))
     impl = V.run_impl('session', cases)
     model = V.run_model('session', cases)
     res.count('session-model', cases, getattr(gen_session, 'nontrivial', None))
@@ -116,6 +131,9 @@ def c07(res, ctx):
                 go += ' searchmoves ' + ' '.join(sm)
             fields.append(go); fens.append(p); sms.append(sm)
         add(fields, fens, sms)
+    for tp in terminal_positions(res, 2000)[:10]:
+        leg[tp] = set()
+        add(['position startpos', 'go depth 2', 'position fen ' + tp, 'go depth 2'], [start, tp], [None, None])
     # thrice-repeated root positions
     for rep in REPEAT:
         for go in ['go depth 1', 'go depth 2', 'go depth 3', 'go movetime 5']:
@@ -493,7 +511,12 @@ def c16(res, ctx):
     ps = small_positions(res, 40 if q else 1500)
     leg = legal_sets(ps)
     ps = [p for p in ps if leg.get(p) is not None]
+    term = terminal_positions(res, 2000 if q else 20000)
+    ps = ps + term[: max(4, len(ps) // 6)]
     cases, meta = [], []
+    for tp in term[:10]:       # no iteration can complete on these roots: nothing may be carried over from the search before
+        cases.append('\t'.join(['position startpos', 'go depth 3', 'position fen ' + tp, 'go depth 3', 'isready'])); meta.append(['rnbqkbnr/pppppppp/8/8/8/8/PPPPPPPP/RNBQKBNR w KQkq - 0 1', tp])
+        cases.append('\t'.join(['position startpos', 'go depth 2', 'position startpos', 'go depth 2 searchmoves e2e5'])); meta.append(['rnbqkbnr/pppppppp/8/8/8/8/PPPPPPPP/RNBQKBNR w KQkq - 0 1'] * 2)
     for _ in range(40 if q else 1500):
         n = rng.randint(2, 8)
         fields = ['uci', 'isready']
